@@ -83,6 +83,18 @@ def known_finding_d7(ctx, res):
 
 def run(ctx: Ctx) -> Result:
     res = Result(ctx.prop)
+    if ctx.thorough:
+        # (MC) the whole forward loop as one state machine (spec/MC_Panel.tla: Decide, SplitKeys, Draw, Advance, Frame composed
+        # from Simulate, Keys and Pipeline): for every model of spec/Family.tla with and without a stochastic state, every batch
+        # of two agents and every stochastic branch, the frame is the complete period-major panel of admissible steps
+        # (PanelComplete, StepsAdmissible, Period0IsInitial; termination under weak fairness); the agent-major variant of Frame
+        # must be refuted
+        from ..unitlib import mc_must_fail, mc_or_die
+
+        mc = mc_or_die("MC_Panel", "MC_Panel.cfg", workers=16)
+        res.merge_cov(states=mc["distinct"], transitions=mc["generated"], mc_states=mc["distinct"])
+        mc_must_fail("MC_Panel", "MC_Panel_neg_frame.cfg", "PanelComplete", workers=8)
+        res.notes.append("MC_Panel.cfg: no error; MC_Panel_neg_frame.cfg (agent-major concatenation) refuted by PanelComplete")
     specs = make_specs(ctx, ctx.n(80, 1200))
     run_pipeline(ctx, res, specs, nontrivial=lambda s: bool(s["plan"][0].get("targets")))
     known_finding_d7(ctx, res)
